@@ -125,7 +125,7 @@ func lockRootsTxfile(p *Program) []lockRoot {
 	var roots []lockRoot
 	roots = append(roots,
 		lockRoot{name: "Open", fn: p.Func("txfile", "Open"), expect: lockExpect{flock: "open"}, role: "open"},
-		lockRoot{name: "File.Close", fn: p.Method("txfile", "File", "Close"), recv: "File", expect: lockExpect{flock: "close"}, role: "close"},
+		lockRoot{name: "File.Close", fn: p.Method("txfile", "File", "Close"), recv: "File", expect: lockExpect{flock: "close"}, role: "close", init: map[string]int{"bgwriter": 1}},
 	)
 	for _, m := range []string{"Begin", "BeginReadonly", "BeginWith"} {
 		roots = append(roots, lockRoot{name: "File." + m, fn: p.Method("txfile", "File", m), recv: "File", expect: lockExpect{okDelta: 1}, role: "begin"})
@@ -175,6 +175,7 @@ func runLockRoot(p *Program, voc *locksVocab, r lockRoot, record bool, nilDeref 
 	in := newInterp(p, pl)
 	in.Relevant = voc.relevant
 	in.OnSkip = pl.onSkip
+	in.OnLearnNil = pl.learnNil
 	res = &lockRun{root: r, in: in, pl: pl}
 	defer func() {
 		if e := recover(); e != nil {
@@ -213,21 +214,9 @@ func runLockRoot(p *Program, voc *locksVocab, r lockRoot, record bool, nilDeref 
 func describeExit(fn *ssa.Function, e Exit) string {
 	p := e.st.prop.(*lockProp)
 	errs := map[int8]string{-1: "-", 0: "?", 1: "nil", 2: "non-nil"}
-	fl := "n/a"
-	switch {
-	case p.flock > 0:
-		switch e.st.nilF[p.flock] {
-		case 1:
-			fl = "HELD"
-		case 2:
-			fl = "lock-failed"
-		default:
-			fl = "held-if-lock-ok"
-		}
-	case p.flock == -1:
-		fl = "released"
-	}
-	return fmt.Sprintf("exit err=%s held={%s} flock=%s", errs[errOfExit(fn, e)], strings.Join(p.held(), ","), fl)
+	fl := resName(e.st, p.flock, "HELD", "lock-failed", "held-if-lock-ok", "released")
+	mm := resName(e.st, p.mmap, "MAPPED", "mmap-failed", "mapped-if-ok", "unmapped")
+	return fmt.Sprintf("exit err=%s held={%s} flock=%s mmap=%s bgwriter=%d", errs[errOfExit(fn, e)], strings.Join(p.held(), ","), fl, mm, p.n["bgwriter"])
 }
 
 // checkLockContracts turns the exits and reports of one root into obligations.
@@ -294,10 +283,38 @@ func checkLockContracts(rep *Report, rule string, run *lockRun) {
 				problems = append(problems, "a transaction lock (shared/reserved) is still held")
 			}
 		}
+		// resources of an open File: background writer goroutine and memory mapping
+		if r.expect.flock != "" {
+			mapped := resState(e.st, p.mmap) == 1 || resState(e.st, p.mmap) == 0
+			definitelyMapped := resState(e.st, p.mmap) == 1
+			switch {
+			case r.expect.flock == "open" && en == 2:
+				if p.n["bgwriter"] != 0 {
+					problems = append(problems, "the background writer started for the File is not stopped on an error exit of Open (File not closed)")
+				}
+				if mapped {
+					problems = append(problems, "the file stays memory mapped on an error exit of Open")
+				}
+			case r.expect.flock == "open" && en == 1:
+				if p.n["bgwriter"] != 1 {
+					problems = append(problems, fmt.Sprintf("success exit of Open with %d background writer(s) running, expected 1", p.n["bgwriter"]))
+				}
+				if !definitelyMapped {
+					problems = append(problems, "success exit of Open without a memory mapping")
+				}
+			case r.expect.flock == "close":
+				if p.n["bgwriter"] != 0 {
+					problems = append(problems, "File.Close does not stop the background writer")
+				}
+				if p.mmap != resReleased {
+					problems = append(problems, "File.Close does not unmap the file")
+				}
+			}
+		}
 		switch r.expect.flock {
 		case "open":
-			held := p.flock > 0 && e.st.nilF[p.flock] != 2
-			definitelyHeld := p.flock > 0 && e.st.nilF[p.flock] == 1
+			held := resState(e.st, p.flock) == 1 || resState(e.st, p.flock) == 0
+			definitelyHeld := resState(e.st, p.flock) == 1
 			if en == 2 && held {
 				problems = append(problems, "path lock may still be held on an error exit of Open")
 			}
@@ -305,7 +322,7 @@ func checkLockContracts(rep *Report, rule string, run *lockRun) {
 				problems = append(problems, "path lock not held on the success exit of Open")
 			}
 		case "close":
-			if p.flock != -1 {
+			if p.flock != resReleased {
 				problems = append(problems, "path lock not released by File.Close")
 			}
 		}
@@ -413,4 +430,41 @@ func ruleLOCKS(p *Program, rep *Report, filter func(lockRoot) bool, withOrder bo
 		checkLockOrder(rep, "LOCK-ORDER", runs)
 	}
 	return runs
+}
+
+// resState: 1 held, 2 not held (failed / released / never attempted), 0 held iff the pending error is nil (undecided)
+func resState(st *State, r int) int {
+	switch {
+	case r == resHeld:
+		return 1
+	case r == resFailed, r == resReleased, r == 0:
+		return 2
+	case r > 0:
+		switch st.nilF[r] {
+		case 1:
+			return 1
+		case 2:
+			return 2
+		}
+		return 0
+	}
+	return 2
+}
+
+func resName(st *State, r int, held, failed, pending, released string) string {
+	switch {
+	case r == 0:
+		return "n/a"
+	case r == resReleased:
+		return released
+	case r == resFailed:
+		return failed
+	}
+	switch resState(st, r) {
+	case 1:
+		return held
+	case 2:
+		return failed
+	}
+	return pending
 }
